@@ -1,3 +1,4 @@
+\* 3 calls, 2 connection generations.  Measured: 8,207,421 states generated, 1,736,957 distinct, depth 30 (6 min with -coverage, 4 workers, loaded box).
 SPECIFICATION Spec
 CONSTANTS
   Calls = {"a", "b", "c"}
